@@ -1,18 +1,13 @@
-use nvh::engine::{Part, Tier, new_runner};
-use nvh::props::c02::Order;
-use proptest::strategy::{Strategy, ValueTree};
-use rayon::prelude::*;
+use nvh::props::c09::Case;
+use nvh::tools::chain::{run_spec_probed, Keep};
+use nvh::tools::density::LogDensity;
 fn main() {
     nvh::engine::install_quiet_panic_hook();
-    let strat = Order.strategy(Tier::Quick);
-    let mut hist = vec![0u64; 40];
-    let mut judged = 0u64;
-    for b in 0..400 {
-        let mut runner = new_runner(12345 + b, "X", "order-cal");
-        let cases: Vec<_> = (0..2500).map(|_| strat.new_tree(&mut runner).unwrap().current()).collect();
-        let res: Vec<Option<f64>> = cases.par_iter().map(|c| nvh::props::c02::order_estimate(c)).collect();
-        for r in res.into_iter().flatten() { judged += 1; let k = ((r * 10.0).floor() as i64).clamp(0, 39) as usize; hist[k] += 1; }
+    let p = std::env::args().nth(1).unwrap();
+    let v: serde_json::Value = serde_json::from_str(&std::fs::read_to_string(p).unwrap()).unwrap();
+    let c: Case = serde_json::from_value(v["case"].clone()).unwrap();
+    let (h, probes) = run_spec_probed(&c.spec, LogDensity::new(c.dens.clone()), &c.init, c.spec.num_tune as usize + 3, Keep::None).unwrap();
+    for (t, d) in h.draws.iter().enumerate() {
+        println!("t={t} idx={:?} tid={:?} upd={:?} step={:?} bar={:?} acc={:?} sym={:?} nsteps={:?} evals={} probe={:?}", d.i64("index_in_trajectory"), d.i64("transformation_index"), d.i64("transformation_update_id"), d.f64("step_size"), d.f64("step_size_bar"), d.f64("mean_tree_accept"), d.f64("mean_tree_accept_sym"), d.u64("n_steps"), d.eval_range.1 - d.eval_range.0, probes[t + 1]);
     }
-    println!("judged {judged}");
-    for (k, h) in hist.iter().enumerate() { if *h > 0 { println!("order {:.1}-{:.1}: {h}", k as f64 / 10.0, (k + 1) as f64 / 10.0); } }
 }
